@@ -126,6 +126,16 @@ def run_shard(shard, tier, seed, wd, res):
                 d = s.op(gp + ".wnaf_form", V.RR(k), V.n(w))
                 s.op(gp + ".wnaf_exp", tab, d)
     elif part == "ctx":
+        if shard.get("idx", 0) == 0:
+            # one staged table / digit string used for MANY scalars / bases (block-wise processing would show here)
+            nmany = 70 if q else 300
+            Pm = G.subgroup_point(g, rng)
+            ctxm = s.op(gp + ".ctx_new")
+            pool = [rng.getrandbits(255) for _ in range(12)]
+            s.op(gp + ".ctx_base", ctxm, V.proj(g, *G.rescale(g, Pm, G.rand_fe(g, rng))), V.n(nmany),
+                 V.lst([V.RR(pool[(i_ * 5 + i_ // 12) % 12] if i_ % 3 else (1 << (i_ % 255))) for i_ in range(nmany)]))
+            bases = [V.proj(g, *G.rescale(g, Pm, G.rand_fe(g, rng))) for _ in range(4)]
+            s.op(gp + ".ctx_scalar", ctxm, V.RR(pool[0]), V.lst([bases[i_ % 4] for i_ in range(nmany)]))
         thr = REC1 if g == 1 else REC2
         bits = (34, 130) if g == 1 else (37, 103)
         for _ in range(3 if q else 6):
